@@ -486,7 +486,9 @@ fn random_alloc(rng: &mut Rng) -> Value {
                     hole = true;
                 }
                 if rng.chance(1, 60) {
-                    json!({"op": "alloc", "size": BIG, "w": 0, "big": *rng.pick(&["2^40", "2^63", "u64max"])})
+                    // (2^63 is left to the `space` programs: twice in one segment it overflows, which the monitor's guard
+                    // for FX01b could only recognise with exact 64-bit arithmetic)
+                    json!({"op": "alloc", "size": BIG, "w": 0, "big": *rng.pick(&["2^40", "u64max"])})
                 } else {
                     json!({"op": "alloc", "size": size, "w": w})
                 }
